@@ -431,7 +431,7 @@ def reclaim_layer(ctx):
     for _ in range(n):
         nk = rng.choice([2, 2, 3, 3, 4])
         nf = rng.randint(1, 5)
-        progs = [[(rng.choice([10, 10, 10, 11, 11, 1, 3, 12, 18]), rng.randint(0, 1)) for _ in range(rng.randint(1, 6))]
+        progs = [[(rng.choice([10, 10, 10, 11, 11, 23, 23, 1, 3, 12, 18]), rng.randint(0, 1)) for _ in range(rng.randint(1, 6))]
                  for _f in range(nf)]
         cases.append(core.fmt_case([60000, nk], progs, core.random_sched(rng, nk, rng.randint(50, 2500), rng.randrange(3))))
     impl = core.run_sharded([exe], cases, timeout=900)
